@@ -12,7 +12,7 @@ from vt.mon import contracts
 PROP = 'C07'
 TITLE = 'CYK membership and table'
 SHARDS = {'quick': 16, 'thorough': 32}
-TIMEOUT = {'quick': 900, 'thorough': 3600}
+TIMEOUT = {'quick': 420, 'thorough': 3600}
 REQUIRED = ['cfg_accepts_word', 'cfg_cyk_matrix', 'cyk_cells']
 EXHAUSTIVE_NOTE = 'all 12383 grammars with variables {S,A}, terminals {a,b}, <=3 rules of right-hand side length <=2, each with all words <=4'
 RULE = ('cases are grammars: enumerated small scope, seeded random grammars (<=6 variables, <=10 rules, rhs <=5) with epsilon, unit, cyclic, unproductive and '
